@@ -284,6 +284,8 @@ func verifC15Flip9d2()  { verifC15Run(9, 2, verifTamperPayload) }
 func verifC15Flip3d1()  { verifC15Run(3, 1, verifTamperPayload) }
 func verifC15Chk9d1()   { verifC15Run(9, 1, verifTamperCheck) }
 func verifC15Chk9d2()   { verifC15Run(9, 2, verifTamperCheck) }
+func verifC15ChkHi9d2() { verifC15Run(9, 2, verifTamperCheckHi) }
+func verifC15ChkHi9d1() { verifC15Run(9, 1, verifTamperCheckHi) }
 func verifC15Two9d1()   { verifC15Run(9, 1, verifTamperTwo) }
 func verifC15Two9d2()   { verifC15Run(9, 2, verifTamperTwo) }
 func verifC15Cross9d1() { verifC15Run(9, 1, verifTamperCross) }
